@@ -19,6 +19,7 @@ type checkpoint struct {
 	Hashes   []uint64                    `json:"hashes,omitempty"`
 	Samples  []json.RawMessage           `json:"samples,omitempty"`
 	Incon    map[string]int64            `json:"incon,omitempty"`
+	Maxes    map[string]int64            `json:"maxes,omitempty"`
 	Viol     []Violation                 `json:"viol,omitempty"`
 	Done     bool                        `json:"done,omitempty"`
 	NumCases int                         `json:"num_cases,omitempty"`
@@ -130,11 +131,14 @@ func childMain(p *Prop, args []string) {
 		}
 	}
 	n := p.NumCases(env)
+	if m := int(envInt("VERIF_MAXCASES", 0)); m > 0 && m < n {
+		n = m // development aid only
+	}
 	state := newChildState()
 	var evals int64
 	flush := func(upto int, done bool) {
 		cp := checkpoint{Upto: upto, Evals: evals, Counters: state.counters, Seen: state.seen,
-			Samples: state.samples, Incon: state.incon, Viol: state.viol, Done: done, NumCases: n}
+			Samples: state.samples, Incon: state.incon, Maxes: state.maxes, Viol: state.viol, Done: done, NumCases: n}
 		for h := range state.hashes {
 			cp.Hashes = append(cp.Hashes, h)
 		}
